@@ -35,7 +35,7 @@ var c07Alphabet = []string{"a", "\"", "'", "`", "\\", "n", "x", "u", "U", "0", "
 
 var c07Frags = []string{"a", "z", " ", "é", "世", "\x00", "\\a", "\\b", "\\f", "\\n", "\\r", "\\t", "\\v", "\\\\", "\\\"", "\\'", "\\`",
 	"\\101", "\\377", "\\400", "\\08", "\\1", "\\x41", "\\xff", "\\x4", "\\xg1", "\\X41", "\\u00e9", "\\u4e16", "\\ud800", "\\udfff", "\\u12",
-	"\\U0001F600", "\\U00110000", "\\U0000d800", "\\U1234", "\\z", "\\ ", "\\", "\"", "'", "`", "\n", "#", "\"\"", "''", "\\\n", "0", "x"}
+	"\\U0001F600", "\\U00110000", "\\U0000d800", "\\U1234", "\\U80000041", "\\UFFFFFFFF", "\\UDEADBEEF", "\\U7FFFFFFF", "\\uFFFF", "\\U0010FFFF", "\\xFF", "\\777", "\\x00", "\\z", "\\ ", "\\", "\"", "'", "`", "\n", "#", "\"\"", "''", "\\\n", "0", "x"}
 
 var c07Styles = []string{"\"", "'", "`", "\"\"\"", "'''"}
 
